@@ -54,13 +54,17 @@ example : (1 : Lid) ∈ (((({ } : World).run [.addPrefix true 1 7, .setRef (some
 
 /-! ## 2. The generated facts about the source -/
 
-/-- TunnelEndpoint forwards both directions of listener management (regenerated from anonymization/endpoint.py; a method
+/-- The wrapping endpoints forward listener management — TunnelEndpoint both directions, StatisticsEndpoint the removal (its
+    inherited add_* already act on the wrapped endpoint's lists) — regenerated from the source; this discharges `hstack` of
+    theorem 1 for the wrappers that exist (DispatcherEndpoint fans out to its interfaces, each a plain registry). (a method
     that is defined but is not a plain forward is rejected by the translator, so this can only fail for a deleted method) -/
 theorem tunnel_endpoint_forwards_listener_ops :
-    Gen.tunnelEndpointForwardsAdd = true ∧ Gen.tunnelEndpointForwardsRemove = true := by decide
+    Gen.tunnelEndpointForwardsAdd = true ∧ Gen.tunnelEndpointForwardsRemove = true ∧
+    Gen.statisticsEndpointForwardsRemove = true := by decide
 
-/-- Check of an unload script.  It is ORDER-sensitive where the code is: the exit-socket sweep has to come after the
-    task-manager shutdown (handlers that are still in flight can open sockets while `unload` is suspended).  Required:
+/-- Check of an unload script.  It is ORDER-sensitive where the code is: the exit-socket sweep has to come after the LAST
+    of: removal of the overlay's listener, removal of the proxy's listener, task-manager shutdown (a cell that is still
+    delivered, or a handler that is still in flight, can open a socket while `unload` is suspended).  Required:
     stop listening, shut the task manager down, unload the bootstrappers, shut the request cache down / close the
     database if the class owns one; a class that installs a proxy also removes it, clears both back references and sweeps
     its exit sockets after the shutdown.  (Not required, because not a resource in the sense of the property: clearing
@@ -70,7 +74,7 @@ def scriptOk (c : ClassInfo) : Bool :=
   && (!c.hasCache || c.script.contains .cacheShutdown)
   && (!c.hasDb || c.script.contains .closeDb)
   && (!c.installsProxy || (c.script.contains .removeProxy && c.script.contains .clearFwd
-        && c.script.contains .clearEndpointRef && (afterTm c.script).contains .closeExitSockets))
+        && c.script.contains .clearEndpointRef && (afterClosing c.script).contains .closeExitSockets))
 
 /-- every shipped overlay class (list regenerated from the source) has a complete, correctly ordered unload script -/
 theorem all_unload_scripts_complete : ∀ c ∈ Gen.classes, scriptOk c = true := by decide
@@ -84,8 +88,8 @@ example : Gen.classes.length ≥ 8 ∧ (Gen.classes.any (fun c => c.installsProx
 /-- **unload_releases_everything** — for every class with an accepted script, EVERY state in which unload is requested
     (any registry contents, any number of circuits / relays / exit sockets, any unfinished removal tasks, any sleep
     guard of the removal tasks, plain or forwarding-wrapped endpoint) and EVERY adversary `acq` that lets in-flight
-    handlers open further exit sockets at each statement at which `unload` is suspended while the task manager is
-    still up: after the script the overlay cannot be made to run (`Silent`, hence theorem 1 applies), its task manager is
+    handlers open further exit sockets at each statement at which `unload` is suspended while the overlay or its proxy is
+    still registered or the task manager is still up: after the script the overlay cannot be made to run (`Silent`, hence theorem 1 applies), its task manager is
     down, no removal task is left, the bootstrappers are unloaded, the cache is down and the database closed if it has
     one, and a tunnel overlay has NO open exit socket.  Table-clearing statements after the shutdown have taken effect. -/
 theorem unload_releases_everything (c : ClassInfo) (hc : scriptOk c = true) (sl : RemKind → Bool → Bool)
@@ -97,7 +101,7 @@ theorem unload_releases_everything (c : ClassInfo) (hc : scriptOk c = true) (sl 
     Silent s.self s'.w ∧ s'.tmDown = true ∧ s'.removals = [] ∧ s'.bootDown = true ∧
     (c.hasCache = true → s'.cacheDown = true) ∧ (c.hasDb = true → s'.dbClosed = true) ∧
     (c.installsProxy = true → s'.openExit = 0) ∧
-    (UOp.clearTable .remExit ∈ afterTm c.script → s'.exits = 0) ∧
+    (c.installsProxy = true → UOp.clearTable .remExit ∈ afterClosing c.script → s'.exits = 0) ∧
     (UOp.clearTable .remCircuit ∈ c.script → s'.circuits = 0) ∧ (UOp.clearTable .remRelay ∈ c.script → s'.relays = 0) := by
   intro s'
   simp only [scriptOk, Bool.and_eq_true, Bool.or_eq_true, Bool.not_eq_true', List.contains_iff_mem] at hc
@@ -193,6 +197,105 @@ theorem unload_releases_everything (c : ClassInfo) (hc : scriptOk c = true) (sl 
     refine est (fun _ => True) (fun t => f t = true) a₀ (fun _ _ _ => trivial) ?_ ?_ trivial hm
     · intro t a _ h; rw [hproj]; exact hmono t a h
     · intro t _; rw [hproj]; exact h₀ t
+  -- what holds once every closing statement has run: nothing can be acquired, so a sweep / a table clear sticks
+  have tail : ∀ (script : List UOp) (s0 : UState), UOp.removeSelf ∈ script → UOp.tmShutdown ∈ script →
+      UOp.removeProxy ∈ script → UFrame s.self s.proxy s0 → script = script →
+      (UOp.closeExitSockets ∈ afterClosing script → (s0.run sl acq script).openExit = 0) ∧
+      (UOp.clearTable .remExit ∈ afterClosing script → (s0.run sl acq script).exits = 0) := by
+    intro script s0 h1 h2 h3 hf _
+    have hany : script.any UOp.isClosing = true := List.any_eq_true.mpr ⟨_, h2, rfl⟩
+    obtain ⟨pre, hsplit, hpre⟩ := afterClosing_split script hany
+    have m1 := hpre _ h1 rfl
+    have m2 := hpre _ h2 rfl
+    have m3 := hpre _ h3 rfl
+    -- the state after the prefix
+    let J : UState → Prop := fun t => UFrame s.self s.proxy t
+    have hJ : ∀ (t : UState) (a : UOp), J t → J (t.step sl acq a) := hI
+    have pe : ∀ (Q : UState → Prop) (a₀ : UOp), (∀ (t : UState) (a : UOp), J t → Q t → Q (t.step sl acq a)) →
+        (∀ t : UState, J t → Q (t.step sl acq a₀)) → a₀ ∈ pre → Q (s0.run sl acq pre) :=
+      fun Q a₀ q1 q2 hm => foldl_establish (UState.step sl acq) J Q a₀ hJ q1 q2 pre s0 hf hm
+    have f1 : (s0.run sl acq pre).tmDown = true := by
+      refine pe (fun t => t.tmDown = true) .tmShutdown ?_ ?_ m2
+      · intro t a _ h; rw [(P t a).2.2.2.2.1]; exact core_tmDown_mono sl t a h
+      · intro t _; rw [(P t .tmShutdown).2.2.2.2.1]; rfl
+    have f2 : Absent s.self (s0.run sl acq pre).w.inner := by
+      refine pe (fun t => Absent s.self t.w.inner) .removeSelf ?_ ?_ m1
+      · intro t a _ h; rw [(P t a).1]; exact absent_ustep sl s.self t a h
+      · intro t ht
+        obtain ⟨g1, _, g3, _⟩ := ht
+        rw [(P t .removeSelf).1]
+        simp only [UState.core, g1]
+        cases hv : t.viaOuter
+        · exact absent_remove_self s.self t.w.inner
+        · simp only [World.step, g3 hv, if_true]; exact absent_remove_self s.self t.w.inner
+    have f3 : Absent s.proxy (s0.run sl acq pre).w.inner := by
+      refine pe (fun t => Absent s.proxy t.w.inner) .removeProxy ?_ ?_ m3
+      · intro t a _ h; rw [(P t a).1]; exact absent_ustep sl s.proxy t a h
+      · intro t ht
+        obtain ⟨_, g2, g3, _⟩ := ht
+        rw [(P t .removeProxy).1]
+        simp only [UState.core, g2]
+        cases hv : t.viaOuter
+        · exact absent_remove_self s.proxy t.w.inner
+        · simp only [World.step, g3 hv, if_true]; exact absent_remove_self s.proxy t.w.inner
+    have f4 : J (s0.run sl acq pre) := foldl_preserve (UState.step sl acq) J (fun t a h => hJ t a h) pre s0 hf
+    -- invariant of the suffix: closed
+    let K : UState → Prop := fun t => t.tmDown = true ∧ Absent s.self t.w.inner ∧ Absent s.proxy t.w.inner ∧ UFrame s.self s.proxy t
+    have hK : ∀ (t : UState) (a : UOp), K t → K (t.step sl acq a) := by
+      intro t a ⟨k1, k2, k3, k4⟩
+      refine ⟨?_, ?_, ?_, hI t a k4⟩
+      · rw [(P t a).2.2.2.2.1]; exact core_tmDown_mono sl t a k1
+      · rw [(P t a).1]; exact absent_ustep sl s.self t a k2
+      · rw [(P t a).1]; exact absent_ustep sl s.proxy t a k3
+    have noacq : ∀ (t : UState) (a : UOp), K t → (t.core sl a).canAcquire = false := by
+      intro t a hk
+      have hk' := hK t a hk
+      obtain ⟨k1, k2, k3, k4⟩ := hk'
+      have c1 : (t.core sl a).tmDown = true := by rw [← (P t a).2.2.2.2.1]; exact k1
+      have c2 : Absent s.self (t.core sl a).w.inner := by rw [← (P t a).1]; exact k2
+      have c3 : Absent s.proxy (t.core sl a).w.inner := by rw [← (P t a).1]; exact k3
+      have c4 : (t.core sl a).self = s.self := by rw [← (P t a).2.1]; exact k4.1
+      have c5 : (t.core sl a).proxy = s.proxy := by rw [← (P t a).2.2.1]; exact k4.2.1
+      unfold UState.canAcquire
+      rw [c1, c4, c5, lists_false_of_absent c2, lists_false_of_absent c3]; rfl
+    have hK0 : K (s0.run sl acq pre) := ⟨f1, f2, f3, f4⟩
+    have hrun : s0.run sl acq script = (s0.run sl acq pre).run sl acq (afterClosing script) := by
+      have := run_append sl acq s0 pre (afterClosing script)
+      rw [← hsplit] at this
+      exact this
+    constructor
+    · intro hm
+      rw [hrun]
+      refine foldl_establish (UState.step sl acq) K (fun t => t.openExit = 0) .closeExitSockets hK ?_ ?_
+        (afterClosing script) _ hK0 hm
+      · intro t a hk h
+        rw [((P t a).2.2.2.2.2.2.2.2.2.2.2 (noacq t a hk)).1]
+        cases a with
+        | spawnRemovals k n cl => simp only [UState.core]; split <;> exact h
+        | awaitRemovals =>
+          simp only [UState.core]; exact (finishAll_frame t.removals { t with removals := [] }).2.2.2.2.2.2.2.2.1 h
+        | clearTable k => cases k <;> exact h
+        | clearEndpointRef => simp only [UState.core]; split <;> exact h
+        | _ => simp [UState.core, h]
+      · intro t hk
+        rw [((P t .closeExitSockets).2.2.2.2.2.2.2.2.2.2.2 (noacq t _ hk)).1]
+        simp [UState.core]
+    · intro hm
+      rw [hrun]
+      refine foldl_establish (UState.step sl acq) K (fun t => t.exits = 0) (.clearTable .remExit) hK ?_ ?_
+        (afterClosing script) _ hK0 hm
+      · intro t a hk h
+        rw [((P t a).2.2.2.2.2.2.2.2.2.2.2 (noacq t a hk)).2]
+        cases a with
+        | spawnRemovals k n cl => simp only [UState.core]; split <;> exact h
+        | awaitRemovals =>
+          simp only [UState.core]; exact (finishAll_frame t.removals { t with removals := [] }).2.2.2.2.2.2.2.2.2.2.2 h
+        | clearTable k => cases k <;> simp [UState.core, UState.clear, h]
+        | clearEndpointRef => simp only [UState.core]; split <;> exact h
+        | _ => simp [UState.core, h]
+      · intro t hk
+        rw [((P t (.clearTable .remExit)).2.2.2.2.2.2.2.2.2.2.2 (noacq t _ hk)).2]
+        simp [UState.core, UState.clear]
   refine ⟨⟨habs, hnf, hnr⟩, htmd.1, htmd.2, ?_, ?_, ?_, ?_, ?_, ?_, ?_⟩
   · -- bootstrappers
     refine flag (fun t => t.bootDown) ?_ (fun t a => (P t a).2.2.2.2.2.2.2.2.1) .unloadBootstrappers (fun t => by simp [UState.core]) hboot
@@ -238,49 +341,21 @@ theorem unload_releases_everything (c : ClassInfo) (hc : scriptOk c = true) (sl 
     | clearTable k => cases k <;> exact h
     | clearEndpointRef => simp only [UState.core]; split <;> exact h
     | _ => simp [UState.core, h]
-  · -- exit sockets: the sweep comes after the shutdown, after which nothing can be acquired any more
+  · -- exit sockets: the sweep comes after the last closing statement, after which nothing can be acquired any more
     intro hp
-    have hce : UOp.closeExitSockets ∈ afterTm c.script := by
+    have hall : ((UOp.removeProxy ∈ c.script ∧ UOp.clearFwd ∈ c.script) ∧ UOp.clearEndpointRef ∈ c.script) ∧
+        UOp.closeExitSockets ∈ afterClosing c.script := by
       rcases hproxy with h | h
       · simp [hp] at h
-      · exact h.2
-    obtain ⟨s₁, _, hd, hrun⟩ := run_afterTm sl acq (fun _ => True) (fun _ _ _ => trivial) c.script s trivial htm
-    show (s.run sl acq c.script).openExit = 0
-    rw [hrun]
-    refine foldl_establish (UState.step sl acq) (fun t => t.tmDown = true) (fun t => t.openExit = 0) .closeExitSockets
-      ?_ ?_ ?_ (afterTm c.script) s₁ hd hce
-    · intro t a h; rw [(P t a).2.2.2.2.1]; exact core_tmDown_mono sl t a h
-    · intro t a hdn h
-      rw [((P t a).2.2.2.2.2.2.2.2.2.2.2 (core_tmDown_mono sl t a hdn)).1]
-      cases a with
-      | spawnRemovals k n cl => simp only [UState.core]; split <;> exact h
-      | awaitRemovals =>
-        simp only [UState.core]; exact (finishAll_frame t.removals { t with removals := [] }).2.2.2.2.2.2.2.2.1 h
-      | clearTable k => cases k <;> exact h
-      | clearEndpointRef => simp only [UState.core]; split <;> exact h
-      | _ => simp [UState.core, h]
-    · intro t hdn
-      rw [((P t .closeExitSockets).2.2.2.2.2.2.2.2.2.2.2 (core_tmDown_mono sl t _ hdn)).1]
-      simp [UState.core]
-  · intro hm
-    obtain ⟨s₁, _, hd, hrun⟩ := run_afterTm sl acq (fun _ => True) (fun _ _ _ => trivial) c.script s trivial htm
-    show (s.run sl acq c.script).exits = 0
-    rw [hrun]
-    refine foldl_establish (UState.step sl acq) (fun t => t.tmDown = true) (fun t => t.exits = 0) (.clearTable .remExit)
-      ?_ ?_ ?_ (afterTm c.script) s₁ hd hm
-    · intro t a h; rw [(P t a).2.2.2.2.1]; exact core_tmDown_mono sl t a h
-    · intro t a hdn h
-      rw [((P t a).2.2.2.2.2.2.2.2.2.2.2 (core_tmDown_mono sl t a hdn)).2]
-      cases a with
-      | spawnRemovals k n cl => simp only [UState.core]; split <;> exact h
-      | awaitRemovals =>
-        simp only [UState.core]; exact (finishAll_frame t.removals { t with removals := [] }).2.2.2.2.2.2.2.2.2.2.2 h
-      | clearTable k => cases k <;> simp [UState.core, UState.clear, h]
-      | clearEndpointRef => simp only [UState.core]; split <;> exact h
-      | _ => simp [UState.core, h]
-    · intro t hdn
-      rw [((P t (.clearTable .remExit)).2.2.2.2.2.2.2.2.2.2.2 (core_tmDown_mono sl t _ hdn)).2]
-      simp [UState.core, UState.clear]
+      · exact h
+    exact (tail c.script s hself htm hall.1.1.1 hframe rfl).1 hall.2
+  · intro hp hm
+    have hall : ((UOp.removeProxy ∈ c.script ∧ UOp.clearFwd ∈ c.script) ∧ UOp.clearEndpointRef ∈ c.script) ∧
+        UOp.closeExitSockets ∈ afterClosing c.script := by
+      rcases hproxy with h | h
+      · simp [hp] at h
+      · exact h
+    exact (tail c.script s hself htm hall.1.1.1 hframe rfl).2 hm
   · intro hm
     refine est (fun _ => True) (fun t => t.circuits = 0) (.clearTable .remCircuit) (fun _ _ _ => trivial) ?_ ?_ trivial hm
     · intro t a _ h
@@ -325,6 +400,16 @@ example :
     let c : ClassInfo := ⟨"sweep-too-early", true, true, false, bad⟩
     let s : UState := { w := {}, self := 1, proxy := 2, viaOuter := false, exits := 1, openExit := 1 }
     scriptOk c = false ∧ (s.run (fun _ _ => false) (fun pc => if pc = 4 then 1 else 0) bad).openExit = 1 := by decide
+
+/-- the reviewer's variant: task manager down and sweep done BEFORE the proxy is removed — also rejected, and a CREATE that is
+    still delivered during the sweep leaves a socket open -/
+example :
+    let bad : List UOp := [.cacheShutdown, .tmShutdown, .closeExitSockets, .removeProxy, .clearFwd, .clearEndpointRef,
+                           .unloadBootstrappers, .removeSelf]
+    let c : ClassInfo := ⟨"listeners-removed-too-late", true, true, false, bad⟩
+    let w : World := ({ } : World).run (loadOps c false 1 2 7)
+    let s : UState := { w := w, self := 1, proxy := 2, viaOuter := false, exits := 1, openExit := 1 }
+    scriptOk c = false ∧ (s.run (fun _ _ => false) (fun pc => if pc = 2 then 1 else 0) bad).openExit = 1 := by decide
 
 /-! ## 4. Task manager -/
 
